@@ -1,11 +1,11 @@
-\* two channels, logs <= 2, no probes: measured below
+\* one channel, logs <= 3, probes (touch / append / audit), page sizes 1 and 2: measured below
 SPECIFICATION Spec
 CONSTANTS
-  ChanSeq <- MCChanSeq2
-  MaxLen = 2
-  Cfgs <- MCCfgsSmall
-  BadVariants = {"dropLast"}
-  MaxAppends = 0
+  ChanSeq <- MCChanSeq1
+  MaxLen = 3
+  Cfgs <- MCCfgsOne
+  BadVariants = {"dropLast", "hwLowFix"}
+  MaxAppends = 1
   MaxAttempts = 2
 VIEW View
 INVARIANTS TypeOK C11_NothingAboveHW C11_NoOrphanRows C11_WarmFresh C11_OtherSlotKept
